@@ -496,9 +496,12 @@ def conversion_obligations(res: Result, tree, rule: str) -> int:
             tests = [(inst_class(t), pol) for t, pol, _ in norm_path(path)]
             tests = [(c, pol) for c, pol in tests if c is not None]
             pos = [c for c, pol in tests if pol]
-            if len(pos) != 1:
+            # several positive tests (a guard `not isinstance(spec, Array)` passed earlier, then the specific test): the
+            # branch belongs to the most specific class, the one that is a subclass of every other positive class
+            spec_pos = [c for c in pos if tree.classes.get(S + c) is not None and all(tree.is_subclass(tree.classes[S + c], S + d) for d in pos)]
+            if not spec_pos:
                 continue
-            cn = pos[0]
+            cn = spec_pos[0]
             top = (ext_name(uncopy(val)) or "").split(".")[0]
             if top not in ("gym", "gymnasium", "dm_env"):
                 continue     # a helper's return value on the way (e.g. the name), not the converted spec
